@@ -95,8 +95,8 @@ func ext۰reflect۰rtype۰Field(fr *frame, args []value) value {
 		f.Pkg().Path(),
 		makeReflectType(rtype{f.Type()}),
 		st.Tag(i),
-		0,         // TODO(adonovan): offset
-		[]value{}, // TODO(adonovan): indices
+		uintptr(0), // offset: not modelled
+		[]value{i}, // index sequence for Type.FieldByIndex (direct field)
 		f.Anonymous(),
 	}
 }
